@@ -67,6 +67,16 @@ class NatGen(libgen.Gen):
             self.h = saved
         return out
 
+    def gen_function(self, cls=None, kind="free", name=None, ret=None, params=None, **kw):
+        if kind == "ctor" and params:
+            # a constructor taking another class by value / reference is a converting constructor from every class
+            # derived from both, which makes libgen's own copy-constructor initialisers ambiguous: use pointers
+            for p in params:
+                t = p["type"]
+                if t["k"] == "obj" and t["mode"] in ("val", "cref", "ref"):
+                    t["mode"] = "cptr" if t["mode"] == "cref" else "ptr"
+        return super().gen_function(cls, kind, name=name, ret=ret, params=params, **kw)
+
     def feat(self, name):
         if name not in self.model["features"]:
             self.model["features"].append(name)
